@@ -53,3 +53,89 @@ def expected_probe_classes(state):
             "narrow" if m == NASM else "wide",
             "swapped" if w == NASM else "literal",
             "rewritten" if b == NASM else "literal")
+
+
+# --- chunk fitting / counting (C13, C14) -----------------------------------------------------------------------
+
+def fit_layout(start, lengths, c):
+    """Documented placement with chunk size c (c < 2: disabled).  -> (list of (pad, position), final offset)."""
+    q = start
+    out = []
+    for l in lengths:
+        pad = 0
+        if c >= 2 and l < c and (q % c) + l > c:
+            pad = c - q % c
+        out.append((pad, q + pad))
+        q += pad + l
+    return out, q
+
+
+def count_breaks(start, lengths, c):
+    """Number of instructions whose bytes span two or more c-aligned chunks at their final positions."""
+    if c < 2:
+        return 0
+    q = start
+    n = 0
+    for l in lengths:
+        if l > 0 and q // c != (q + l - 1) // c:
+            n += 1
+        q += l
+    return n
+
+
+# --- instance model for call histories (C07, C15) -----------------------------------------------------------------
+
+class Inst:
+    """Documented behaviour of one instance on a caller buffer of n bytes.  A text is a list of instruction lengths;
+    None stands for a line the assembler rejects.  RESERVE: an instruction may start at p only if p + 20 <= n."""
+    RESERVE = 20
+
+    def __init__(self, n):
+        self.n = n
+        self.offset = 0
+        self.fit = 0        # chunk size when fitting is enabled, else 0
+
+    def set_offset(self, k):
+        self.offset = k
+
+    def set_chunk(self, c):
+        self.fit = c if c >= 2 else 0
+
+    def _run(self, lens, c_fit):
+        """-> (ret, final offset or -1, write extent, start).  The write extent is the end of the highest byte the call
+        may have touched: an instruction is written at p once the reserve check at p has passed (p + 20 <= n) - also
+        when chunk fitting then decides to replace it by padding and retry at the next chunk."""
+        p = self.offset
+        if p < 0:
+            return 1, -1, None, None
+        start = p
+        ext = p
+        for l in lens:
+            if l is None:
+                return 1, -1, ext, start
+            if l == 0:
+                continue
+            while True:
+                if p + self.RESERVE > self.n:
+                    return 1, -1, ext, start
+                ext = max(ext, p + l)
+                if c_fit >= 2 and l < c_fit and (p % c_fit) + l > c_fit:
+                    p += c_fit - p % c_fit
+                    continue
+                break
+            p += l
+        return 0, p, ext, start
+
+    def assemble(self, lens):
+        ret, off, end, start = self._run(lens, self.fit)
+        self.offset = off
+        return ret, off, end, start
+
+    def count(self, lens, c):
+        start = self.offset
+        ret, off, end, st = self._run(lens, 0)
+        self.offset = off
+        cnt = None
+        if ret == 0:
+            cnt = count_breaks(start, [l for l in lens if l], c)
+        return ret, off, end, st, cnt
